@@ -1348,6 +1348,140 @@ pub fn threshold_cases(heavy: bool) -> Vec<HistoryCase> {
     out
 }
 
+// ---------------------------------------------------------------------------------------
+// T7: magnitudes that are NOT powers of two. Every dimension the threshold families cross at 2^k is
+// crossed again at decimal round numbers and at seeded log-uniform random magnitudes, so that a
+// misbehaviour tied to an unrelated constant (exactly 1000 siblings, a 300-byte name, the 37th
+// document) has a chance proportional to the number of seeds run, and the round numbers are certain.
+// ---------------------------------------------------------------------------------------
+
+/// log-uniform integer in [lo, hi]
+fn log_uniform(r: &mut gen::Rng, lo: usize, hi: usize) -> usize {
+    let (a, b) = ((lo as f64).ln(), ((hi + 1) as f64).ln());
+    let u = r.below(1_000_000) as f64 / 1_000_000.0;
+    let v = (a + (b - a) * u).exp() as usize;
+    v.clamp(lo, hi)
+}
+
+fn magnitudes(r: &mut gen::Rng, round: &[usize], lo: usize, hi: usize, n_random: usize) -> Vec<usize> {
+    let mut v: Vec<usize> = round.iter().copied().filter(|x| *x >= lo && *x <= hi).collect();
+    for _ in 0..n_random {
+        v.push(log_uniform(r, lo, hi));
+    }
+    v.sort_unstable();
+    v.dedup();
+    v
+}
+
+pub fn magnitude_cases(seed: u64, thorough: bool) -> Vec<HistoryCase> {
+    let mut out: Vec<HistoryCase> = Vec::new();
+    let mut push = |origin: String, docs: Vec<Doc>| out.push(HistoryCase::plain(&format!("magnitude:{}", origin), docs));
+    let doc = |e: Elem| Doc::plain(e);
+    let mut r = gen::Rng::derive(seed, "magnitudes", 0);
+    let k = if thorough { 24 } else { 5 };
+    let round: [usize; 24] = [
+        10, 20, 30, 50, 99, 100, 101, 150, 200, 250, 300, 365, 400, 500, 600, 750, 999, 1000, 1001, 1500, 2000, 3000, 5000, 10_000,
+    ];
+
+    // M1: N occurrences of a parent (all with the child), then one more document; and one occurrence
+    // in the middle lacking the child (must become Option however many came before and after)
+    for n in magnitudes(&mut r, &round, 3, if thorough { 30_000 } else { 10_000 }, k) {
+        let p = || el("p", vec![Elem::new("c")]);
+        let all = el("r", (0..n).map(|_| p()).collect());
+        push(format!("M1-occurrences-{}+1doc", n), vec![doc(all), doc(el("r", vec![p()]))]);
+        let hole = r.below(n);
+        let holed = el("r", (0..n).map(|i| if i == hole { Elem::new("p") } else { p() }).collect());
+        push(format!("M1-occurrences-{}-hole-at-{}", n, hole), vec![doc(holed)]);
+        let last = el("r", (0..n).map(|i| if i == n - 1 { el("p", vec![Elem::new("c"), Elem::new("c")]) } else { p() }).collect());
+        push(format!("M1-occurrences-{}-last-doubles", n), vec![doc(last)]);
+    }
+    // M2: exactly N same-named children in one occurrence of a known parent
+    for n in magnitudes(&mut r, &round, 3, if thorough { 30_000 } else { 10_000 }, k) {
+        let small = el("r", vec![Elem::new("item")]);
+        let big = el("r", (0..n).map(|_| Elem::new("item")).collect());
+        push(format!("M2-siblings-{}-small-big", n), vec![doc(small.clone()), doc(big.clone())]);
+        push(format!("M2-siblings-{}-big-small", n), vec![doc(big.clone()), doc(small)]);
+        let one = el("r", vec![el("p", vec![Elem::new("item")]), el("p", (0..n).map(|_| Elem::new("item")).collect()), Elem::new("p")]);
+        push(format!("M2-siblings-{}-one-doc", n), vec![doc(one)]);
+    }
+    // M3: M distinct child names and M distinct attributes under one parent; a late one repeats, a
+    // random one is absent from a later occurrence
+    for m in magnitudes(&mut r, &round, 3, if thorough { 1500 } else { 700 }, k) {
+        let kids = |upto: usize| -> Vec<Elem> { (0..upto).map(|i| Elem::new(&format!("c{}", i))).collect() };
+        let rep = r.below(m);
+        let mut k1 = kids(m);
+        k1.push(Elem::new(&format!("c{}", rep)));
+        push(format!("M3-distinct-{}-repeat-{}", m, rep), vec![doc(el("wide", k1))]);
+        let gone = r.below(m);
+        let mut k2 = kids(m);
+        k2.remove(gone);
+        push(format!("M3-distinct-{}-absent-{}", m, gone), vec![doc(el("r", vec![el("p", kids(m)), el("p", k2.clone())]))]);
+        push(format!("M3-distinct-{}-absent-{}-later-doc", m, gone), vec![doc(el("p", kids(m))), doc(el("p", k2))]);
+        let mut a = Elem::new("p");
+        let mut b = Elem::new("p");
+        let agone = r.below(m);
+        for i in 0..m {
+            a.attrs.push((format!("a{}", i), "v".into()));
+            if i != agone {
+                b.attrs.push((format!("a{}", i), "v".into()));
+            }
+        }
+        push(format!("M3-attributes-{}-absent-{}", m, agone), vec![doc(el("r", vec![a.clone(), b.clone()]))]);
+        push(format!("M3-attributes-{}-absent-{}-later-doc", m, agone), vec![doc(a), doc(b)]);
+    }
+    // M4: chains of depth D (bounded by the property's depth 200)
+    for d in magnitudes(&mut r, &[5, 6, 10, 11, 20, 25, 40, 50, 75, 99, 100, 101, 150, 199], 3, 199, k) {
+        let distinct = |i: usize| format!("n{}", i + 1);
+        let same = |_: usize| "a".to_string();
+        push(format!("M4-depth-{}-distinct", d), vec![doc(chain(&distinct, d, leafy("bottom")))]);
+        push(format!("M4-depth-{}-same-name", d), vec![doc(chain(&same, d, leafy("a")))]);
+        // a second document whose chain stops early: everything below becomes optional
+        let cut = 1 + r.below(d);
+        push(
+            format!("M4-depth-{}-cut-at-{}", d, cut),
+            vec![doc(chain(&distinct, d, leafy("bottom"))), doc(chain(&distinct, cut, Elem::new(&format!("n{}", cut + 1))))],
+        );
+    }
+    // M5: element and attribute names of length L (identifier characters only; mixed case, digits,
+    // separators inside so that the PascalCase / snake_case conversions have work to do)
+    for l in magnitudes(&mut r, &[2, 3, 10, 31, 32, 33, 50, 63, 64, 65, 100, 127, 128, 200, 255, 256, 257, 300, 500, 1000, 4096, 10_000], 2, if thorough { 70_000 } else { 12_000 }, k) {
+        let alphabet: &[u8] = b"abcdefXYZ019_-.";
+        let mut name = String::from("n");
+        while name.len() < l {
+            let c = alphabet[r.below(alphabet.len())] as char;
+            name.push(c);
+        }
+        if name.ends_with(['-', '.']) {
+            name.pop();
+            name.push('z');
+        }
+        let mut e = Elem::new(&name);
+        e.attrs.push((name.clone(), "v".into()));
+        e.items.push(gen::Item::Text("t".into()));
+        let two = el("r", vec![e.clone(), e.clone(), el("q", vec![e.clone()])]);
+        push(format!("M5-name-length-{}", l), vec![doc(two), doc(el("r", vec![e]))]);
+    }
+    // M6: N documents; the child is absent from exactly one of them (position seeded), doubled in one
+    for n in magnitudes(&mut r, &[3, 4, 5, 7, 10, 17, 20, 33, 50, 65, 100, 129, 200, 257, 500, 1000], 3, if thorough { 5000 } else { 1200 }, k) {
+        let with = || el("r", vec![Elem::new("c"), el("d", vec![Elem::new("e")])]);
+        let hole = r.below(n);
+        let dbl = r.below(n);
+        let docs: Vec<Doc> = (0..n)
+            .map(|i| {
+                if i == hole {
+                    doc(el("r", vec![el("d", vec![Elem::new("e")])]))
+                } else if i == dbl {
+                    doc(el("r", vec![Elem::new("c"), el("d", vec![Elem::new("e"), Elem::new("e")])]))
+                } else {
+                    doc(with())
+                }
+            })
+            .collect();
+        push(format!("M6-documents-{}-hole-{}-double-{}", n, hole, dbl), docs);
+    }
+    out
+}
+
 /// thresholds that are cheap enough for the relational monitors (a subset, by label prefix)
 pub fn threshold_cases_light() -> Vec<HistoryCase> {
     threshold_cases(false)
@@ -1403,4 +1537,13 @@ pub fn pattern_cases(index: u64, k: usize, names: &[&str]) -> Vec<HistoryCase> {
         HistoryCase::plain(&format!("{}:across-documents", label), across),
         HistoryCase::plain(&format!("{}:nested", label), vec![Doc::plain(nested)]),
     ]
+}
+
+/// the light thresholds plus the magnitude cases that are small enough for the relational monitors
+pub fn threshold_and_magnitude_light(seed: u64, thorough: bool) -> Vec<HistoryCase> {
+    let mut v = threshold_cases_light();
+    v.extend(magnitude_cases(seed, thorough).into_iter().filter(|c| {
+        c.docs.len() <= 40 && c.docs.iter().map(|d| d.root.count_elems()).sum::<usize>() <= 1400 && c.texts().iter().map(|t| t.len()).sum::<usize>() <= 60_000
+    }));
+    v
 }
